@@ -38,7 +38,7 @@ class Ctx:
         self.counter = 0
         self.strings = {}       # concrete str -> z3 Real const
         self.global_axioms = []  # filled by builtins_ (pi, sqrt2)
-        self.branch_timeout_ms = 150
+        self.branch_timeout_ms = 300
         self.max_paths = 4000
         self.stats = {'feas_checks': 0, 'paths': 0}
 
@@ -91,8 +91,11 @@ class Path:
         self.pending = []
         self.obligations = []             # side obligations (label, z3 Bool that must hold)
         self.known = {}                   # id of a decided condition -> its value on this path
+        self.pool = None                  # numeric sample points (leaf assignments) consistent with the conditions so far
         if CTX.paths:
             self.known.update(CTX.paths[-1].known)
+            if CTX.paths[-1].pool is not None:
+                self.pool = list(CTX.paths[-1].pool)
 
     def all_conds(self):
         return self.base + self.conds
@@ -105,6 +108,39 @@ class Path:
         self.conds.append(fact)
         self.facts.append((len(self.local), fact))
 
+    def init_pool(self, leaves, n=24, seed=20261003):
+        """Random leaf assignments that satisfy the conditions collected so far; used to answer 'is this branch feasible'
+        without the solver whenever a sample exhibits it (never used to prune)."""
+        import random
+        from . import xcheck
+        if any(kind == 'label' for kind, _ in leaves.values()) or not leaves:
+            self.pool = None
+            return
+        rng = random.Random(seed)
+        pool = []
+        tries = 0
+        while len(pool) < n and tries < n * 12:
+            tries += 1
+            lv = xcheck.random_leaves(leaves, rng)
+            if lv is None:
+                break
+            try:
+                env = xcheck.env_of(lv, leaves)
+            except Exception:
+                continue
+            entry = (env, {})
+            if all(self._pool_eval(c, entry) is True for c in self.all_conds()):
+                pool.append(entry)
+        self.pool = pool
+
+    @staticmethod
+    def _pool_eval(c, entry):
+        from .zeval import zeval, Unevaluable, Ambiguous
+        try:
+            return bool(zeval(c, entry[0], entry[1]))
+        except (Unevaluable, Ambiguous, ZeroDivisionError, OverflowError, ValueError, KeyError):
+            return None
+
     def branch(self, cond) -> bool:
         if isinstance(cond, bool):
             return cond
@@ -116,11 +152,14 @@ class Path:
         k = self.known.get(c.get_id())
         if k is not None and k[1].eq(c):
             return k[0]
+        vals = None
+        if self.pool:
+            vals = [self._pool_eval(c, e) for e in self.pool]
         if self.pos < len(self.decisions):
             d, forced = self.decisions[self.pos]
         else:
-            can_t = _feasible(self.all_conds(), c)
-            can_f = _feasible(self.all_conds(), z3.Not(c))
+            can_t = (vals is not None and any(v is True for v in vals)) or _feasible(self.all_conds(), c)
+            can_f = (vals is not None and any(v is False for v in vals)) or _feasible(self.all_conds(), z3.Not(c))
             if can_t and can_f:
                 d, forced = True, False
                 self.pending.append(self.decisions[:self.pos] + [(False, False)])
@@ -132,6 +171,8 @@ class Path:
                 raise Infeasible()
             self.decisions.append((d, forced))
         self.pos += 1
+        if vals is not None:
+            self.pool = [e for e, v in zip(self.pool, vals) if v is d]
         self.conds.append(c if d else z3.Not(c))
         self.local.append(c if d else z3.Not(c))
         # the ASTs are stored with the verdict: an id is only meaningful while its AST is alive
